@@ -208,7 +208,9 @@ var c14NoArith = map[string]bool{"compare": true, "compare-literal": true, "filt
 	"max": true, "min": true, "max_by": true, "min_by": true, "truthy-and": true, "truthy-not": true, "truthy-filter": true, "type": true, "type-map": true, "to_number": true, "not_null": true,
 	"multiselect": true, "group_by-type": true, "zip": true, "reverse": true, "flatten-filter": true, "or-default": true, "plus": true,
 	"contains-string": true, "contains-strings": true, "equals-its-text": true, "starts_with-number": true, "find-number": true, "split-number": true, "join-number": true, "sort-with-text": true,
-	"length-number": true, "index-number": true, "slice-number": true, "field-of-number": true, "keys-number": true}
+	"length-number": true, "index-number": true, "slice-number": true, "field-of-number": true, "keys-number": true,
+	// offsets may be any integer (they are clamped): the limits of the integer kinds belong here too
+	"find-start": true, "find-window": true}
 
 // C14: results do not depend on which Go type carries a number.
 func TestC14_Carriers(t *testing.T) {
